@@ -28,7 +28,7 @@ ASSUMPTIONS = [
 REQUIRED_COUNTERS = ('schedules_executed', 'preemptions_taken', 'responses_compared', 'wsdl_builds_counted')
 SHARD_TIMEOUT = {'quick': 900, 'thorough': 3000}
 
-WORKLOADS = ('wsdl2', 'wsdl3_rpc', 'wsdl_rpc', 'rpc_pa', 'rpc_pa_json', 'lxml_mix', 'json_mix', 'xml_3', 'msgpack_mix', 'soap12_mix', 'multiref')
+WORKLOADS = ('wsdl2', 'wsdl3_rpc', 'wsdl_rpc', 'rpc_pa', 'rpc_pa_json', 'lxml_mix', 'json_mix', 'xml_3', 'msgpack_mix', 'soap12_mix', 'multiref', 'json_pos', 'msgpackrpc_pos')
 
 
 def shards(tier, seed):
@@ -63,6 +63,16 @@ def instrument():
                                   'validate_document', 'set_app'}})
     _instrumented[0] = True
     return n
+
+
+def instrument_for(name):
+    instrument()
+    if name.endswith('_pos') and not _instrumented[1:]:
+        # the positional workloads: preemptions inside the dict-document reader as well
+        import spyne.protocol.dictdoc.hier as h
+        import spyne.protocol.dictdoc._base as hb
+        S.instrument([h, hb])
+        _instrumented.append(True)
 
 
 class _ThreadingShim(object):
@@ -118,13 +128,14 @@ class Universe(object):
         from spyne.protocol.soap import Soap11, Soap12
         from spyne.protocol.json import JsonDocument
         from spyne.protocol.xml import XmlDocument
-        from spyne.protocol.msgpack import MessagePackDocument
+        from spyne.protocol.msgpack import MessagePackDocument, MessagePackRpc
         self.name = name
         self.builds = 0
         kind = {'wsdl2': 'soap11', 'wsdl3_rpc': 'soap11', 'wsdl_rpc': 'soap11', 'rpc_pa': 'soap11', 'rpc_pa_json': 'json',
-                'lxml_mix': 'soap11', 'json_mix': 'json', 'xml_3': 'xml', 'msgpack_mix': 'msgpack', 'soap12_mix': 'soap12', 'multiref': 'soap11'}[name]
+                'lxml_mix': 'soap11', 'json_mix': 'json', 'xml_3': 'xml', 'msgpack_mix': 'msgpack', 'soap12_mix': 'soap12', 'multiref': 'soap11', 'json_pos': 'json', 'msgpackrpc_pos': 'msgpackrpc'}[name]
         self.kind = kind
-        protcls = {'soap11': Soap11, 'soap12': Soap12, 'json': JsonDocument, 'xml': XmlDocument, 'msgpack': MessagePackDocument}[kind]
+        protcls = {'soap11': Soap11, 'soap12': Soap12, 'json': JsonDocument, 'xml': XmlDocument, 'msgpack': MessagePackDocument,
+                   'msgpackrpc': MessagePackRpc}[kind]
 
         class Item(ComplexModel):
             __namespace__ = M.TNS
@@ -188,7 +199,13 @@ class Universe(object):
             body = ('<e:Envelope xmlns:e="%s" xmlns:tns="%s"><e:Body><tns:echo_item><tns:it href="#id1"/></tns:echo_item>'
                     '<tns:Item id="id1"><tns:a>%d</tns:a><tns:b>%s</tns:b></tns:Item></e:Body></e:Envelope>' % (M.S11, M.TNS, a, b)).encode()
             return dict(method='POST', path='/', qs='', body=body, content_type='text/xml; charset=utf-8')
+        def positional(method, *args):
+            # the positional form of a message and of an object: a sequence of values in declaration order instead of a mapping
+            import json
+            return dict(method='POST', path='/', qs='', body=json.dumps({method: list(args)}).encode(), content_type='application/json')
         self.requests = {
+            'json_pos': [positional('wrap', [1, 'one', ['p', 'q']], 5), positional('wrap', [2, 'two', ['r']], 6), positional('echo_item', [3, 'three', []])],
+            'msgpackrpc_pos': [R(kind, 'wrap', item1 + [('x', 5)]), R(kind, 'wrap', item2 + [('x', 6)]), R(kind, 'echo_item', item1)],
             'multiref': [multiref(1, 'alice'), multiref(2, 'bob'), R(kind, 'echo_item', item1)],
             'wsdl2': [wsdl, wsdl],
             'wsdl3_rpc': [wsdl, wsdl, wsdl, R(kind, 'echo', [('n', 5)])],
@@ -297,7 +314,7 @@ def candidates(rec, rng, occ_cap=64):
 def run_systematic(spec, R):
     rng = core.rng_for(spec['seed'], PROP, spec['shard'])
     name = spec['workload']
-    instrument()
+    instrument_for(name)
     swap_memo_locks()
     oracle = sequential_oracle(name)
     oracle2 = sequential_oracle(name)
